@@ -481,10 +481,13 @@ func (g *Gen) ret(x *ssa.Return) {
 	if fr.c != nil {
 		for i, e := range fr.c.Ensures {
 			p := g.transBool(e.E, env)
-			if o := g.ob("ensures", invLabel(e, i), p, e.E.String()); len(e.Opaque) > 0 {
+			o := g.ob("ensures", invLabel(e, i), p, e.E.String())
+			if len(e.Opaque) > 0 {
 				o.Opaque = e.Opaque
 			}
-			g.assumeProved(g.curR, p)
+			if !isKnownFindingName(o.Name) {
+				g.assumeProved(g.curR, p)
+			}
 		}
 		g.frameObligations(env)
 	}
@@ -810,8 +813,8 @@ func (g *Gen) atAnchor(anchor string, env *TEnv) {
 				continue // clause mentions a program variable that is not defined on this path
 			}
 			g.firedAnchors[anchor] = true
-			g.ob("assert", invLabel(&Clause{Label: a.Label}, i), p, a.Anchor+": "+a.E.String())
-			if !a.GoalOnly {
+			o := g.ob("assert", invLabel(&Clause{Label: a.Label}, i), p, a.Anchor+": "+a.E.String())
+			if !a.GoalOnly && !isKnownFindingName(o.Name) {
 				g.assumeProved(g.curR, p)
 			}
 		}
